@@ -116,7 +116,7 @@ def compress_table(plain, mode, seed=1):
     """Graphite compressed table: version word, (scheme 1 << 27 | size), LZ4 block of the whole plaintext."""
     blk = encode(plain, mode, seed)
     assert decode(blk) == plain
-    if len(blk) + 8 >= len(plain) or len(plain) >= (1 << 27):
+    if len(blk) >= len(plain) or len(plain) >= (1 << 27):       # the decoder refuses blocks that do not shrink the data
         return None
     return plain[:4] + struct.pack(">I", (1 << 27) | len(plain)) + blk
 
@@ -128,3 +128,85 @@ def decompress_table(tbl):
     plain = decode(tbl[8:])
     assert len(plain) == (hdr & 0x07FFFFFF) and plain[:4] == tbl[:4]
     return plain
+
+
+def sequences(data):
+    """greedy parse as a list of (literal bytes, offset, match length) plus the final literals"""
+    n = len(data)
+    table = {}
+    i, anchor, limit = 0, 0, n - 12
+    seqs = []
+    while i < limit:
+        key = data[i:i + 4]
+        cand = table.get(key)
+        table[key] = i
+        if cand is not None and i - cand <= 65535:
+            l = 0
+            while i + l < n - 5 and data[cand + l] == data[i + l]:
+                l += 1
+            if l >= 4:
+                seqs.append([bytes(data[anchor:i]), i - cand, l])
+                i += l
+                anchor = i
+                continue
+        i += 1
+    return seqs, bytes(data[anchor:])
+
+
+def serialize(seqs, tail):
+    out = bytearray()
+    for lits, off, ml in seqs:
+        _emit(out, lits, off, ml)
+    _emit(out, tail, 0, 0)
+    return bytes(out)
+
+
+def _ext(n):
+    return 0 if n < 15 else 1 + (n - 15) // 255
+
+
+def _seq_size(ll, ml):
+    """bytes a sequence with ll literals and a match of ml takes (ml = 0: final literals)"""
+    return 1 + _ext(ll) + ll + (2 + _ext(ml - 4) if ml else 0)
+
+
+def encode_to_size(data, target):
+    """A conforming encoding of exactly `target` bytes (None if the search does not hit it): matches of the greedy
+    parse are turned back into literals from the end, the last kept match is shortened to land on the size."""
+    seqs, tail = sequences(data)
+    total = sum(_seq_size(len(l), ml) for l, _, ml in seqs) + _seq_size(len(tail), 0)
+    nt = len(tail)                        # current length of the final literals
+    k = len(seqs)                         # matches kept
+    while True:
+        if total == target:
+            break
+        if total > target or k == 0:
+            return None
+        lits, off, ml = seqs[k - 1]
+        need = target - total
+        hit = None
+        for c in range(max(1, need - 2), need + 3):          # length-extension bytes may add or save one
+            if c <= ml - 4:
+                t2 = total - _seq_size(len(lits), ml) - _seq_size(nt, 0) + _seq_size(len(lits), ml - c) + _seq_size(nt + c, 0)
+                if t2 == target:
+                    hit = c
+                    break
+        if hit:
+            seqs = seqs[:k - 1] + [[lits, off, ml - hit]]
+            nt += hit
+            total = target
+            break
+        # give the whole match back to the literals
+        total += -_seq_size(len(lits), ml) - _seq_size(nt, 0) + _seq_size(nt + len(lits) + ml, 0)
+        nt += len(lits) + ml
+        k -= 1
+    blk = serialize(seqs[:k], bytes(data[len(data) - nt:]))
+    return blk if len(blk) == target and decode(blk) == data else None
+
+
+def compress_table_to(plain, saved):
+    """compressed table whose LZ4 block is exactly `saved` bytes shorter than the plaintext"""
+    blk = encode_to_size(plain, len(plain) - saved)
+    if blk is None or len(plain) >= (1 << 27):
+        return None
+    return plain[:4] + struct.pack(">I", (1 << 27) | len(plain)) + blk
